@@ -43,6 +43,7 @@ type fnSpec struct {
 	aux              []string          // auxiliary definitions (loop bodies) emitted before the function
 	loopVars         []string          // the locals a general loop updates, in the order of the tuple that carries them
 	namedZero        string            // the zero value the named result starts with (when it is read before it is assigned)
+	skipStmts        int               // leading statements left to the environment (not translated)
 	closure          string            // translate the function literal assigned to this local of the function, not the function itself
 	state            string            // Go expression of the list a void function updates in place ("" = none); Lean name `files`
 	ints             map[string]bool   // locals / parameters that are Go ints (Lean Int)
@@ -579,6 +580,18 @@ func (c *cg) foldAssignLoop(r *ast.RangeStmt) (string, bool) {
 	return "let " + mv + " := List.foldl (fun m_ " + leanIdent(v.Name) + " => " + b + ") " + mv + " " + c.expr(r.X), true
 }
 
+// namedResult: what a bare `return` yields - the named result, or the tuple of the named results
+func (c *cg) namedResult() string {
+	ns := strings.Split(c.s.named, ",")
+	if len(ns) == 1 {
+		return leanIdent(ns[0])
+	}
+	for i := range ns {
+		ns[i] = leanIdent(ns[i])
+	}
+	return "(" + strings.Join(ns, ", ") + ")"
+}
+
 func (c *cg) stateResult() string {
 	if c.s.mode == "err" {
 		return "(Except.ok files)"
@@ -644,6 +657,45 @@ func (c *cg) runLoop(f *ast.ForStmt) (string, bool) {
 	l := c.expr(lst)
 	vn := leanIdent(v.Name)
 	return "let " + vn + " := " + vn + " + Int.ofNat (List.length (List.takeWhile (fun x_ => !" + pred + ") (List.drop (Int.toNat (" + vn + " + 1)) " + l + ")))", true
+}
+
+// mapIdxLoop: `for i, p := range L { if C(i) { L[i] = E1(p) } else { L[i] = E2(p) } }` - every element of the
+// local list L replaced by a function of its position and itself (the element read is the one not yet replaced)
+func (c *cg) mapIdxLoop(r *ast.RangeStmt) (string, bool) {
+	i, ok1 := r.Key.(*ast.Ident)
+	p, ok2 := r.Value.(*ast.Ident)
+	l, ok3 := r.X.(*ast.Ident)
+	if !ok1 || !ok2 || !ok3 || !c.s.locals[l.Name] || len(r.Body.List) != 1 {
+		return "", false
+	}
+	ifs, ok := r.Body.List[0].(*ast.IfStmt)
+	if !ok || ifs.Init != nil {
+		return "", false
+	}
+	els, ok := ifs.Else.(*ast.BlockStmt)
+	if !ok {
+		return "", false
+	}
+	store := func(b *ast.BlockStmt) ast.Expr {
+		if len(b.List) != 1 {
+			return nil
+		}
+		as, ok := b.List[0].(*ast.AssignStmt)
+		if !ok || as.Tok != token.ASSIGN || len(as.Lhs) != 1 || len(as.Rhs) != 1 || exprText(as.Lhs[0]) != l.Name+"["+i.Name+"]" {
+			return nil
+		}
+		return as.Rhs[0]
+	}
+	e1, e2 := store(ifs.Body), store(els)
+	if e1 == nil || e2 == nil {
+		return "", false
+	}
+	if c.s.ints == nil {
+		c.s.ints = map[string]bool{}
+	}
+	c.s.locals[i.Name], c.s.locals[p.Name], c.s.ints[i.Name] = true, true, true
+	ln, in, pn := leanIdent(l.Name), leanIdent(i.Name), leanIdent(p.Name)
+	return "let " + ln + " := List.mapIdx (fun idx_ " + pn + " => let " + in + " : Int := Int.ofNat idx_; if " + c.expr(ifs.Cond) + " then " + c.expr(e1) + " else " + c.expr(e2) + ") " + ln, true
 }
 
 // stateLoop: `for _, x := range L { ...statements updating the locals listed in loopVars... }` - a left
@@ -879,7 +931,7 @@ func (c *cg) stmts(list []ast.Stmt, k func(ind string) string, ind string) strin
 			return ind + c.stateResult()
 		}
 		if c.s.named != "" && len(s.Results) == 0 {
-			return ind + leanIdent(c.s.named)
+			return ind + c.namedResult()
 		}
 		return ind + c.ret(s)
 	case *ast.RangeStmt:
@@ -916,6 +968,30 @@ func (c *cg) stmts(list []ast.Stmt, k func(ind string) string, ind string) strin
 			return ind + out + "\n" + rest(ind)
 		}
 		if out, ok := c.foldAssignLoop(s); ok {
+			return ind + out + "\n" + rest(ind)
+		}
+		// `for _, x := range L { if v := E(x); C(v) { return R } }`: the first element whose E satisfies C, if any
+		if len(s.Body.List) == 1 && s.Value != nil {
+			if ifs, ok := s.Body.List[0].(*ast.IfStmt); ok && ifs.Init != nil && ifs.Else == nil && len(ifs.Body.List) == 1 {
+				ret, isRet := ifs.Body.List[0].(*ast.ReturnStmt)
+				a, isAs := ifs.Init.(*ast.AssignStmt)
+				val, isId := s.Value.(*ast.Ident)
+				if k, isK := s.Key.(*ast.Ident); isRet && isAs && isId && (s.Key == nil || (isK && k.Name == "_")) && len(a.Lhs) == 1 && len(a.Rhs) == 1 {
+					if v, ok := a.Lhs[0].(*ast.Ident); ok {
+						l := c.expr(s.X)
+						c.s.locals[val.Name] = true
+						e := c.expr(a.Rhs[0])
+						c.s.locals[v.Name] = true
+						cond := c.expr(ifs.Cond)
+						hit := c.ret(ret)
+						return ind + "match List.find? (fun " + leanIdent(val.Name) + " => let " + leanIdent(v.Name) + " := " + e + "; " + cond + ") " + l + " with\n" +
+							ind + "| some " + leanIdent(val.Name) + " =>\n" + ind + "  let " + leanIdent(v.Name) + " := " + e + "\n" + ind + "  " + hit + "\n" +
+							ind + "| none =>\n" + rest(ind+"  ")
+					}
+				}
+			}
+		}
+		if out, ok := c.mapIdxLoop(s); ok {
 			return ind + out + "\n" + rest(ind)
 		}
 		if out, ok := c.stateLoop(s); ok {
@@ -998,6 +1074,14 @@ func (c *cg) stmts(list []ast.Stmt, k func(ind string) string, ind string) strin
 					m := c.expr(ix.X)
 					return ind + "let " + m + " := (" + f + " " + m + " " + c.expr(ix.Index) + " " + c.expr(s.Rhs[0]) + ")\n" + rest(ind)
 				}
+			}
+		}
+		// `_, x := call`: the second component of the pair the call yields
+		if len(s.Lhs) == 2 && len(s.Rhs) == 1 && exprText(s.Lhs[0]) == "_" {
+			if x, ok := s.Lhs[1].(*ast.Ident); ok {
+				rhs := c.expr(s.Rhs[0])
+				c.s.locals[x.Name] = true
+				return ind + "let " + leanIdent(x.Name) + " := " + rhs + ".2\n" + rest(ind)
 			}
 		}
 		// `x, _ := call`: the first component of the pair the call yields
@@ -1110,6 +1194,21 @@ func (c *cg) stmts(list []ast.Stmt, k func(ind string) string, ind string) strin
 		}
 		// `if v, ok := m[k]; ok { ... }`: a match on the lookup
 		if a, ok := s.Init.(*ast.AssignStmt); ok && len(a.Lhs) == 2 && len(a.Rhs) == 1 && s.Else == nil {
+			if ix, isIx := a.Rhs[0].(*ast.IndexExpr); isIx {
+				// `if v, ok := m[k]; ok && C { ... }`: the lookup, then C
+				if be, isB := s.Cond.(*ast.BinaryExpr); isB && be.Op == token.LAND && exprText(be.X) == exprText(a.Lhs[1]) {
+					v, ok := a.Lhs[0].(*ast.Ident)
+					look, ok2 := c.s.calls["index"]
+					if !ok || !ok2 {
+						return ind + c.fail("map lookup")
+					}
+					call := "(" + look + " " + c.expr(ix.X) + " " + c.expr(ix.Index) + ")"
+					c.s.locals[v.Name] = true
+					cond := c.expr(be.Y)
+					thenT := c.stmts(s.Body.List, rest, ind+"    ")
+					return ind + "match " + call + " with\n" + ind + "| some " + leanIdent(v.Name) + " =>\n" + ind + "  if " + cond + " then\n" + thenT + "\n" + ind + "  else\n" + rest(ind+"    ") + "\n" + ind + "| none =>\n" + rest(ind+"  ")
+				}
+			}
 			if ix, isIx := a.Rhs[0].(*ast.IndexExpr); isIx && exprText(s.Cond) == exprText(a.Lhs[1]) {
 				v, ok := a.Lhs[0].(*ast.Ident)
 				look, ok2 := c.s.calls["index"]
@@ -1316,11 +1415,16 @@ func translate(repo string, s *fnSpec) (string, error) {
 		body = c.stmts(fd.Body.List, func(ind string) string { return ind + "set" }, "  ")
 	} else {
 		if s.named != "" && s.namedZero != "" {
-			s.locals[s.named] = true
+			for _, n := range strings.Split(s.named, ",") {
+				s.locals[n] = true
+			}
 		}
-		body = c.stmts(fd.Body.List, nil, "  ")
+		body = c.stmts(fd.Body.List[s.skipStmts:], nil, "  ")
 		if s.named != "" && s.namedZero != "" {
-			body = "  let " + leanIdent(s.named) + " := " + s.namedZero + "\n" + body
+			zs := strings.Split(s.namedZero, ",")
+			for i, n := range strings.Split(s.named, ",") {
+				body = "  let " + leanIdent(n) + " := " + zs[i] + "\n" + body
+			}
 		}
 	}
 	if c.err != nil {
@@ -1608,6 +1712,11 @@ func codeSpecs() []*fnSpec {
 				"buf.Len": "int:", "utf8.RuneCount": "int:", "utf8.RuneCountInString": "int:",
 				"utf8.DecodeLastRuneInString": "decodeLastRuneR", "get:parts": "listGetB", "set:parts": "listSetB",
 				"meth:buf.Reset": "bufReset", "meth:buf.WriteRune": "bufWriteRune"}},
+		// C15: Transform: the parts of Split, the first through `first`, the others through `mod`, joined by `sep`
+		{file: "name.go", recv: "Name", name: "Transform", lean: "name_Transform", rn: "n", pn: []string{"mod", "first", "sep"}, ints: map[string]bool{},
+			binders: "(up dgt : Nat → Bool) (mod first : Pgs.Bytes → Pgs.Bytes) (sep : Pgs.Bytes) (n : Pgs.Bytes)", ret: "Pgs.Bytes",
+			exprs: map[string]string{"n": "n", "sep": "sep", "n.Split()": "(name_Split up dgt n)"},
+			calls: map[string]string{"first": "first", "mod": "mod", "Name": "id", "strings.Join": "joinStr"}},
 		// the closure `unique` of uniqueNames: underscores until the name (and, for a field, its getter) is free; then both are taken
 		{file: "lang/go/name.go", recv: "", name: "uniqueNames", closure: "unique", lean: "go_unique", pn: []string{"n", "getter"}, mode: "mapret", mapVar: "used",
 			binders: "(used : Pgs.GoNames.Used) (fuel_ : Nat) (n : Pgs.Bytes) (getter : Bool)", ret: "Pgs.Bytes × Pgs.GoNames.Used",
@@ -1635,6 +1744,24 @@ func codeSpecs() []*fnSpec {
 			binders: "(importPrefix : Pgs.Bytes) (optionPackage : Pgs.Bytes × Pgs.Bytes)", ret: "Pgs.Bytes",
 			exprs: map[string]string{"c.p.Str(\"import_prefix\")": "importPrefix", "c.optionPackage(e)": "optionPackage"},
 			calls: map[string]string{"pgs.FilePath": "id"}},
+		// C17: which Go package a file belongs to - resolveGoPackageOption, optionPackage, PackageName (lang/go/package.go)
+		{file: "lang/go/package.go", rn: "c", pn: []string{"e"}, recv: "context", name: "resolveGoPackageOption", lean: "context_resolveGoPackageOption",
+			binders: "(env : PkgEnv)", ret: "Pgs.Bytes",
+			exprs: map[string]string{"e.File().Descriptor().GetOptions().GetGoPackage()": "env.goPackage", "e.Package().Files()": "env.pkgGoPackages",
+				"f.Descriptor().GetOptions().GetGoPackage()": "f"}},
+		{file: "lang/go/package.go", rn: "c", pn: []string{"e"}, recv: "context", name: "optionPackage", lean: "context_optionPackage",
+			named: "path,pkg", namedZero: "([] : Pgs.Bytes),([] : Pgs.Bytes)", ints: map[string]bool{},
+			binders: "(snake : Pgs.Bytes → Pgs.Bytes) (env : PkgEnv)", ret: "Pgs.Bytes × Pgs.Bytes",
+			exprs: map[string]string{"e.File().InputPath().String()": "env.input", "e.BuildTarget()": "env.buildTarget", "c.p": "env.params",
+				"c.resolveGoPackageOption(e)": "(context_resolveGoPackageOption env)", "e.File().InputPath().Dir().String()": "(filePath_Dir env.input)",
+				"e.Package().ProtoName()": "env.protoName", "n.SnakeCase().String()": "(snake n)", "e.File().InputPath().BaseName()": "(filePath_BaseName env.input)"},
+			calls: map[string]string{"index": "Pgs.C19.get", "strings.LastIndex": "int:lastIndexB", "nonAlphaNumPattern.ReplaceAllString": "replaceNonAlnum"}},
+		{file: "lang/go/package.go", rn: "c", pn: []string{"node"}, recv: "context", name: "PackageName", lean: "context_PackageName", skipStmts: 2,
+			binders: "(snake : Pgs.Bytes → Pgs.Bytes) (env : PkgEnv)", ret: "Pgs.Bytes",
+			doc: " (after the node has been resolved to an entity: a package stands for its first file)",
+			exprs: map[string]string{"c.optionPackage(e)": "(context_optionPackage snake env)", "e.File().Descriptor().GetOptions().GetGoPackage()": "env.goPackage",
+				"token.Lookup(pkg).IsKeyword()": "(Pgs.GoTypes.goKeywordsB.contains pkg)"},
+			calls: map[string]string{"c.p.Str": "parameters_Str env.params", "utf8.DecodeRuneInString": "decodeRuneAscii", "unicode.IsDigit": "Pgs.GoNames.isDigitB", "pgs.Name": "id"}},
 		// C18: the prefixed debugger (debug.go)
 		dbgSpec("rootDebugger", "Push", "rootDebugger_Push", "(pfx : Pgs.Bytes)", []string{"prefix"}),
 		dbgSpec("prefixedDebugger", "Push", "prefixedDebugger_Push", "(pfx : Pgs.Bytes)", []string{"prefix"}),
@@ -1972,6 +2099,56 @@ func workflowSteps(repo string) (string, error) {
 		{"generator.go", "Generator", "AST"}, {"generator.go", "Generator", "Render"}})
 }
 
+// ast.go: the entry points and the registry of the graph
+func astEntrySteps(repo string) (string, error) {
+	return stepTable(repo, "astEntrySteps", "ast.go", []stepTarget{
+		{"ast.go", "", "ProcessDescriptors"}, {"ast.go", "", "ProcessCodeGeneratorRequest"}, {"ast.go", "", "ProcessCodeGeneratorRequestBidirectional"},
+		{"ast.go", "", "ProcessFileDescriptorSet"}, {"ast.go", "", "ProcessFileDescriptorSetBidirectional"},
+		{"ast.go", "graph", "hydratePackage"}, {"ast.go", "graph", "mustSeen"}, {"ast.go", "graph", "add"}, {"ast.go", "graph", "resolveFQN"},
+		{"ast.go", "graph", "Lookup"}, {"ast.go", "graph", "Targets"}, {"ast.go", "graph", "Packages"}, {"ast.go", "", "assignDependent"}})
+}
+
+// generator.go / module.go / persister.go: registration of modules and post-processors, and ModuleBase's bookkeeping of artifacts
+func moduleSteps(repo string) (string, error) {
+	ts := []stepTarget{{"generator.go", "Generator", "RegisterModule"}, {"generator.go", "Generator", "RegisterPostProcessor"},
+		{"persister.go", "stdPersister", "AddPostProcessor"}, {"persister.go", "stdPersister", "SetFS"}, {"persister.go", "stdPersister", "SetSupportedFeatures"}}
+	for _, n := range []string{"InitContext", "Name", "Execute", "Push", "PushDir", "Pop", "PopDir", "Artifacts", "AddArtifact", "AddGeneratorFile", "OverwriteGeneratorFile",
+		"AddGeneratorTemplateFile", "OverwriteGeneratorTemplateFile", "AddGeneratorAppend", "AddGeneratorTemplateAppend", "AddGeneratorInjection",
+		"AddGeneratorTemplateInjection", "AddCustomFile", "OverwriteCustomFile", "AddCustomTemplateFile", "OverwriteCustomTemplateFile", "AddError"} {
+		ts = append(ts, stepTarget{"module.go", "ModuleBase", n})
+	}
+	return stepTable(repo, "moduleSteps", "generator.go, persister.go, module.go", ts)
+}
+
+// lang/go/package.go: the pattern whose matches are replaced by "_" in package names
+func packagePattern(repo string) (string, error) {
+	f := parse(filepath.Join(repo, "lang/go/package.go"))
+	for _, d := range f.Decls {
+		gd, ok := d.(*ast.GenDecl)
+		if !ok || gd.Tok != token.VAR {
+			continue
+		}
+		for _, sp := range gd.Specs {
+			vs := sp.(*ast.ValueSpec)
+			for i, n := range vs.Names {
+				if n.Name != "nonAlphaNumPattern" || i >= len(vs.Values) {
+					continue
+				}
+				call, ok := vs.Values[i].(*ast.CallExpr)
+				if !ok || exprText(call.Fun) != "regexp.MustCompile" || len(call.Args) != 1 {
+					return "", fmt.Errorf("lang/go/package.go: nonAlphaNumPattern is not regexp.MustCompile(<literal>)")
+				}
+				lit, ok := strLit(call.Args[0])
+				if !ok {
+					return "", fmt.Errorf("lang/go/package.go: nonAlphaNumPattern is not compiled from a string literal")
+				}
+				return "/-- lang/go/package.go: the regular expression `nonAlphaNumPattern` is compiled from -/\ndef nonAlphaNumPattern : String := " + strconv.Quote(lit) + "\n", nil
+			}
+		}
+	}
+	return "", fmt.Errorf("lang/go/package.go: nonAlphaNumPattern not found")
+}
+
 // persister.go: the steps of Persist - the loop over the artifacts and, per artifact type, what is done with it
 func persistSteps(repo string) (string, error) {
 	t, err := stepTable(repo, "persistSteps", "persister.go", []stepTarget{{"persister.go", "stdPersister", "Persist"}})
@@ -2124,17 +2301,44 @@ func stepTable(repo, defName, what string, targets []stepTarget) (string, error)
 					}
 					steps = append(steps, "}")
 				case *ast.IfStmt:
+					head := "if "
 					if x.Init != nil {
-						return fmt.Errorf("%s.%s: if with init", t.recv, t.name)
+						a, ok := x.Init.(*ast.AssignStmt)
+						if !ok || len(a.Rhs) != 1 {
+							return fmt.Errorf("%s.%s: if with an init that is not an assignment", t.recv, t.name)
+						}
+						var lhs []string
+						for _, l := range a.Lhs {
+							lhs = append(lhs, exprText(l))
+						}
+						head += strings.Join(lhs, ", ") + " = " + exprText(a.Rhs[0]) + "; "
 					}
-					steps = append(steps, "if "+exprText(x.Cond)+" {")
+					steps = append(steps, head+exprText(x.Cond)+" {")
 					if err := walk(x.Body.List); err != nil {
 						return err
 					}
-					steps = append(steps, "}")
-					if x.Else != nil {
-						return fmt.Errorf("%s.%s: else branch", t.recv, t.name)
+					for el := x.Else; el != nil; {
+						switch e := el.(type) {
+						case *ast.BlockStmt:
+							steps = append(steps, "} else {")
+							if err := walk(e.List); err != nil {
+								return err
+							}
+							el = nil
+						case *ast.IfStmt:
+							if e.Init != nil {
+								return fmt.Errorf("%s.%s: else-if with init", t.recv, t.name)
+							}
+							steps = append(steps, "} else if "+exprText(e.Cond)+" {")
+							if err := walk(e.Body.List); err != nil {
+								return err
+							}
+							el = e.Else
+						default:
+							return fmt.Errorf("%s.%s: else branch", t.recv, t.name)
+						}
 					}
+					steps = append(steps, "}")
 				case *ast.TypeSwitchStmt:
 					// `switch a := a.(type)`: one bracket per clause, named by the types it lists
 					for _, cl := range x.Body.List {
@@ -2165,7 +2369,11 @@ func stepTable(repo, defName, what string, targets []stepTarget) (string, error)
 							steps = append(steps, "return "+exprText(x.Results[0]))
 						}
 					} else {
-						return fmt.Errorf("%s.%s: return with %d results", t.recv, t.name, len(x.Results))
+						var rs []string
+						for _, r := range x.Results {
+							rs = append(rs, exprText(r))
+						}
+						steps = append(steps, "return "+strings.Join(rs, ", "))
 					}
 				default:
 					return fmt.Errorf("%s.%s: statement of kind %T", t.recv, t.name, st)
@@ -2266,7 +2474,7 @@ func hydratePhases(repo string) (string, error) {
 func genCode(repo string) (map[string]string, error) {
 	files := map[string]string{}
 	var b strings.Builder
-	b.WriteString("import PgsVerif.Model.FilePath\nimport PgsVerif.Model.Context\nimport PgsVerif.Model.Params\nimport PgsVerif.Model.GoNames\nimport PgsVerif.Model.Persist\nimport PgsVerif.Model.Closure\nimport PgsVerif.Generated.Tables\n")
+	b.WriteString("import PgsVerif.Model.FilePath\nimport PgsVerif.Model.GoTypes\nimport PgsVerif.Model.Context\nimport PgsVerif.Model.Params\nimport PgsVerif.Model.GoNames\nimport PgsVerif.Model.Persist\nimport PgsVerif.Model.Closure\nimport PgsVerif.Generated.Tables\n")
 	b.WriteString("/- GENERATED by harness/cmd/factgen (codegen.go) from the current source of protoc-gen-star. Do not edit:\n")
 	b.WriteString("   regenerated (and overwritten) on every run of ./check and of setup.sh. -/\n")
 	b.WriteString("set_option linter.unusedVariables false\nnamespace Pgs.GenCode\n\n")
@@ -2308,6 +2516,12 @@ func genCode(repo string) (map[string]string, error) {
 	b.WriteString("def bufReset (b : Pgs.Bytes) : Pgs.Bytes := []\ndef bufWriteRune (b : Pgs.Bytes) (r : Nat) : Pgs.Bytes := b ++ [r]\n")
 	b.WriteString("/-- `utf8.DecodeLastRuneInString`: the last rune (RuneError when there is none) and its width, which nothing reads -/\n")
 	b.WriteString("def decodeLastRuneR (s : Pgs.Bytes) : Nat × Nat := (s.getLast?.getD 65533, 1)\n")
+	b.WriteString("/-- what lang/go/package.go reads of an entity, its file, its proto package and the parameters -/\n")
+	b.WriteString("structure PkgEnv where\n  input : Pgs.Bytes\n  goPackage : Pgs.Bytes\n  pkgGoPackages : List Pgs.Bytes\n  protoName : Pgs.Bytes\n  buildTarget : Bool\n  params : Pgs.C19.Map\n")
+	b.WriteString("/-- `strings.LastIndex(s, sep)` for a one-byte separator, as the model's last-position function: -1 if absent -/\n")
+	b.WriteString("def lastIndexB (s sep : Pgs.Bytes) : Int := match sep with | [c] => (match Pgs.GoTypes.lastIndexOf c s with | some i => Int.ofNat i | none => -1) | _ => -1\n")
+	b.WriteString("/-- `nonAlphaNumPattern.ReplaceAllString(s, \"_\")`: every match of the pattern (Pgs.GenCode.nonAlphaNumPattern) replaced -/\n")
+	b.WriteString("def replaceNonAlnum (s repl : Pgs.Bytes) : Pgs.Bytes := if repl == [95] then Pgs.GoTypes.PgsGo.sanitize s else s\n")
 	b.WriteString("def lookupTbl (t : List (Pgs.Bytes × Pgs.Bytes)) (k : Pgs.Bytes) : Option Pgs.Bytes := (t.find? (·.1 == k)).map (·.2)\n")
 	b.WriteString("/-- a prefixedDebugger, as far as its output goes, is the prefix string it stores -/\n")
 	b.WriteString("def mkPrefixedDebugger (parent : Unit) (prefix_ : Pgs.Bytes) : Pgs.Bytes := prefix_\n")
@@ -2356,7 +2570,7 @@ func genCode(repo string) (map[string]string, error) {
 	tables := []struct {
 		name string
 		gen  func(string) (string, error)
-	}{{"nameHelpers", nameHelpers}, {"acceptOrders", acceptOrders}, {"typePredicates", typePredicates}, {"hydratePhases", hydratePhases}, {"childAtPaths", childAtPaths}, {"workflowSteps", workflowSteps}, {"commentSteps", commentSteps}, {"persistSteps", persistSteps}}
+	}{{"nameHelpers", nameHelpers}, {"acceptOrders", acceptOrders}, {"typePredicates", typePredicates}, {"hydratePhases", hydratePhases}, {"childAtPaths", childAtPaths}, {"workflowSteps", workflowSteps}, {"commentSteps", commentSteps}, {"persistSteps", persistSteps}, {"astEntrySteps", astEntrySteps}, {"packagePattern", packagePattern}, {"moduleSteps", moduleSteps}}
 	for _, g := range tables {
 		t, err := g.gen(repo)
 		if err != nil {
